@@ -105,6 +105,18 @@ class JEncoder(json.JSONEncoder):
             return json.JSONEncoder.default(self, obj)
 
 
+def _equals_default(default, value):
+    """True if `value` (scalar, string, None or array) equals the field default."""
+    if hasattr(default, "to_nplike"):  # default of an array field
+        default = default.to_nplike()
+    try:
+        default = np.asarray(default)
+        value = np.asarray(value)
+        return default.shape == value.shape and not np.any(default != value)
+    except Exception:  # not comparable: keep the value
+        return False
+
+
 def _build_xofields_dict(bases, data):
     if "_xofields" in data.keys():
         xofields = data["_xofields"].copy()
@@ -323,8 +335,9 @@ class HybridClass(metaclass=MetaHybridClass):
                 out[ff] = vv.to_dict()
             elif hasattr(vv, "_to_dict"):
                 out[ff] = vv._to_dict()
-            elif np.any(defaults.get(ff) != vv):
-                # Only include those scalar values that are not default.
+            elif ff not in defaults or not _equals_default(defaults[ff], vv):
+                # Only include those values that are not default; a field
+                # without a computable default is always included.
                 out[ff] = vv
 
         return out
